@@ -4,7 +4,7 @@ import Proofs.UncondBase
 
 For every curve of `NamedPrimes.unconditionalCurves` (13 curves: p and n carry kernel-checked Pocklington certificates, the
 order of the base point is checked by kernel evaluation) the headline statements of C14 hold without any hypothesis about the
-curve, except `#E(𝔽_p) = n` where stated; for the 4 curves with one uncertified number (`…_<curve>`) with exactly that one.
+curve, (no `#E(𝔽_p) = n` hypothesis is needed for honest signatures); for the 4 curves with one uncertified number (`…_<curve>`) with exactly that one.
 Generated from `Props/Uncond.lean` by harness/tools/primecerts/mkuncond_split.py.
 -/
 namespace UncondC14
@@ -12,9 +12,9 @@ open Uncond Named NamedPrimes Ecdsa GroupInterface Jac
 
 variable {r : Gen.CurveRow}
 
+/-- no `#E = n`: honest signatures construct points of ⟨G⟩ (C14.recovery_honest), so recovery needs only that the curve matches -/
 theorem recovery (hr : r ∈ unconditionalCurves) :
     haveI := factP hr
-    Nat.card (Grp ((r.a : ℤ) : ZMod r.p) ((r.b : ℤ) : ZMod r.p)) = r.n →
     ∀ (d e k r' s x0 : ℤ),
     Honest (OnCurve.ops (crvOf r)) (baseCtx r (checked_of_mem (mem_table hr))).G OnCurve.xcOf d e k r' s x0 →
     ∃ l, recoverPublicKeys (OnCurve.ops (crvOf r)) NT.squareRootModPrime r' s e = .ok l ∧ l.length ≤ 2 ∧
@@ -22,7 +22,7 @@ theorem recovery (hr : r ∈ unconditionalCurves) :
         OnCurve.den (baseCtx r (checked_of_mem (mem_table hr))) A = d • (baseCtx r (checked_of_mem (mem_table hr))).G) ∧
       ∀ A ∈ l, verifies (OnCurve.ops (crvOf r)) A e r' s = .ok true := by
   haveI := factP hr
-  intro hcard d e k r' s x0 H
-  exact Named.recovery (mem_table hr) (primeN hr) hcard d e k r' s x0 H
+  intro d e k r' s x0 H
+  exact C14.recovery_named r (mem_table hr) (primeN hr) d e k r' s x0 H
 
 end UncondC14
